@@ -15,8 +15,8 @@ CHECKS = {
                  "alias_factory_subclass_from_arg returns instances unchanged, treats str as alias, pops 'alias' then "
                  "(only if absent) 'name' from a fresh copy and forwards the rest, and every annotated alias parameter "
                  "is normalised with its own family. Decides these structural clauses, NOT bit-identity of features "
-                 "of alias-built and explicitly built computers."),
-        "design_ref": "DESIGN.md §3 C08",
+                 "of alias-built and explicitly built computers. Also: the values of a configuration mapping reach the constructor unchanged (no filtering or transforming copy), and nothing in alias.py is memoised (every resolution builds a new object)."),
+        "design_ref": "DESIGN.md §3 C08, §10.10, §10.11",
         "note": NOTE_COMMON + "Assumes module import order does not matter (true while no alias is shared inside a family; the check exits 2 otherwise).",
         "technique": "static analysis: exhaustive class-table/alias-registry check, CFG dominance and reaching-definition rules on the factory functions",
     },
@@ -30,8 +30,8 @@ CHECKS["C09"] = {
              "chains exist, the only exclusions are the documented ones, one shared path-or-inline JSON/YAML parser, seed "
              "provenance (given --seed reaches the RNG first, no hash/id/time in the per-item seed), exhaustive NumPy->torch "
              "conversion. Does NOT decide numerical equality of stored and library features; that part of the property "
-             "quantifies over signal values and is out of reach of static analysis."),
-    "design_ref": "DESIGN.md §3 C09",
+             "quantifies over signal values and is out of reach of static analysis. Also: the processor collections walked per utterance are real sequences (no one-shot iterators); the per-item seed depends on the base seed and the utterance's identity only (taint analysis shared with C10, live dict views followed); as a premise, the value rule of the pre-processors (in-place variants equal the plain call) is re-established."),
+    "design_ref": "DESIGN.md §3 C09, §10.10, §10.11",
     "note": NOTE_COMMON + "pydrobert.kaldi / torch I/O are trusted to store what they are given.",
     "technique": "static analysis: forward substitution of the write's def-use chain into a pipeline normal form, argparse-dest and family attribute tables, guard enumeration, seed provenance",
 }
@@ -42,8 +42,8 @@ CHECKS["C10"] = {
              "next iteration and exit, append+read mode, rewind and filter before the dataset is built, per-item seed free of "
              "manifest-filtered positions (flow-sensitive taint through tool function and dataset class), re-seed before any "
              "random draw, order-preserving DataLoader. Each is a necessary condition: breaking it breaks the property for "
-             "some kill point / resume."),
-    "design_ref": "DESIGN.md §3 C10",
+             "some kill point / resume. Also: membership tests against the manifest are made on its lines, not inside its text; seed tables are aligned with the collection they are indexed by; as a premise, the reset rule of both frame computers (one computer per process is re-used across utterances) is re-established."),
+    "design_ref": "DESIGN.md §3 C10, §10.9-§10.11",
     "note": NOTE_COMMON + "Atomicity of torch.save and fsync-level durability are not decided (a half-written file is never listed, by save-before-ack).",
     "technique": "static analysis: CFG dominance / must-flush path rules and flow-sensitive taint (manifest-filtered membership -> position) of the per-item seed",
 }
@@ -56,8 +56,8 @@ CHECKS["C12"] = {
              "per read equal the frames counted, the np.empty buffer is returned only through a slice bounded by the fill "
              "counter on every path, byte order / shape / expansion / warning / header-error clauses. Nothing numerical "
              "remains beyond NumPy's frombuffer, so this is close to the whole property; it is still a statement about the "
-             "code's shape, not an execution over files."),
-    "design_ref": "DESIGN.md §3 C12",
+             "code's shape, not an execution over files. Also: the NIST_1A magic is tested before any header text is converted (CFG dominance); byte order is never corrected on the output array; which G.711 table is applied is decided by value over coding x stored width x requested dtype scenarios."),
+    "design_ref": "DESIGN.md §3 C12, §10.9, §10.10",
     "note": NOTE_COMMON + "file_.read(n) is assumed to return n bytes unless the stream ends (buffered binary streams).",
     "technique": "static analysis: exhaustive literal-table comparison with ITU-T G.711, closed-form divisibility/byte-accounting with witnesses, reaching definitions on header parsing and the returned buffer",
 }
@@ -67,8 +67,8 @@ CHECKS["C13"] = {
              "signedness discipline of the bit reader, exhaustive command and sample-type dispatch with error fall-through, "
              "premature-end error not swallowed, DIFF0-3/QLPC stencils in normal form, running-mean read/update and C "
              "division for versions 1 and 2, wrap / bit-shift fix-up / interleave applied to every block command. Does NOT "
-             "decide losslessness over all encoder outputs: that needs an encoder and execution."),
-    "design_ref": "DESIGN.md §3 C13",
+             "decide losslessness over all encoder outputs: that needs an encoder and execution. Also: initial running means per sample type by evaluation of the dispatch; vectorised QLPC: width, tap order and the flooring of the scaled prediction (evaluated on both sides of zero)."),
+    "design_ref": "DESIGN.md §3 C13, §10.9, §10.10",
     "note": NOTE_COMMON + "The reference arithmetic is transcribed in pdsa/rules/c13.py (REF) from shorten_x.c.",
     "technique": "static analysis: signedness typing, exhaustive dispatch tables, stencil / mean closed forms compared with the reference decoder, control-dependence of post-block steps",
 }
@@ -82,10 +82,10 @@ CHECKS["C01"] = {
              "finalize never reflects further back than the samples it pads; both are decided by normal-form identity where "
              "possible and otherwise by exact evaluation of the extracted formulas on a declared grid (bounded: L in 1..12,16,25, "
              "S <= L, N <= 3L+2); streaming and one-shot framing geometry agree as closed forms; carried state is written on every "
-             "exit and reset by finalize. Equality of frame VALUES and histories of several chunks are NOT decided."),
-    "design_ref": "DESIGN.md §3 C01, §10.2",
+             "exit and reset by finalize. Two-chunk law: in the steady state, feeding N1 then N2 samples emits the frames and leaves the carried scalars of feeding N1 + N2 at once (closed forms composed and evaluated exactly on a grid of L, S, carried states within the invariants and chunk pairs including empty and one-sample chunks); a frame style the constructor accepts is stored as one of the two literals the framing code compares with. Equality of frame VALUES and buffer CONTENTS across chunkings is NOT decided."),
+    "design_ref": "DESIGN.md §3 C01, §10.2, §10.10, §10.11",
     "note": NOTE_COMMON + "The two streaming/one-shot discrepancies named in the property were found by these rules and repaired (fix: 4fe22b9, eb5740a).",
-    "technique": "static analysis: exact-cover rule on the driver; closed-form summary of the one-chunk history (forward substitution, idempotent-loop summary) compared with compute_full's closed forms, bounded grid evaluation of the extracted integer formulas where normal forms differ; sibling agreement of framing geometry; CFG must-write rule",
+    "technique": "static analysis: exact-cover rule on the driver; closed-form summary of the one-chunk history (forward substitution, idempotent-loop summary) compared with compute_full's closed forms, bounded grid evaluation of the extracted integer formulas where normal forms differ; sibling agreement of framing geometry; CFG must-write rule; two-chunk composition of the closed-form state transition on a grid; evaluation of the constructor's validation for alternative spellings",
 }
 CHECKS["C02"] = {
     "level": "other",
@@ -93,8 +93,8 @@ CHECKS["C02"] = {
              "documented definition as exact closed forms valid for all L, S, N, D (odd and even): thresholds, paddings, frame "
              "count/slices, mirrored-bin capacity / first bin / direction / conjugation, walk structure, real doubling, log floor, "
              "energy, default frame length and DFT size. Does NOT decide that floating-point sums equal the full-spectrum "
-             "definition for all banks and signals, nor the values of get_truncated_response (C06)."),
-    "design_ref": "DESIGN.md §3 C02",
+             "definition for all banks and signals, nor the values of get_truncated_response (C06). Also: config.LOG_FLOOR_VALUE is read at call time (no default argument, module constant or from-import captures it)."),
+    "design_ref": "DESIGN.md §3 C02, §10.11",
     "note": NOTE_COMMON + "len(np.fft.rfft(x, n=D)) = D//2+1 is taken from NumPy's documented contract.",
     "technique": "static analysis: forward substitution into quasi-affine / rational normal forms compared with the documented geometry (residue tables, witnesses); structural walk rules",
 }
@@ -116,8 +116,8 @@ CHECKS["C04"] = {
              "every normal path of finalize or by the not-started prefix of the next compute_chunk before being read; one reasoned "
              "exemption), the started typestate on all exits, guard-first refusal in compute_full / frame_by_frame_calculation, "
              "and by a flow-sensitive alias/effect analysis with callee summaries that no entry point writes through an alias of "
-             "its input array. Histories are not enumerated; bit-identity of features across histories is NOT decided."),
-    "design_ref": "DESIGN.md §3 C04",
+             "its input array. Histories are not enumerated; bit-identity of features across histories is NOT decided. The exemption of the STFT remainder buffer's contents covers in-place writes only (re-binding makes dtype and size part of the state)."),
+    "design_ref": "DESIGN.md §3 C04, §10.10",
     "note": NOTE_COMMON + "Exemption: contents of STFT._buf (only read through slices bounded by the reset fill count).",
     "technique": "static analysis: must-reinitialise data flow through self.* calls, typestate on exits, alias/effect analysis with summaries",
 }
@@ -127,8 +127,8 @@ CHECKS["C20"] = {
              "phase-ramp closed form of circshift_fourier, the four window closed forms against NumPy's generators and their DC "
              "coefficients (fresh, un-memoised arrays), the gamma window's special cases / mode / normaliser, the ten Odeh-Evans "
              "coefficients, tail threshold, folding, sign and affinity, and the Hz<->rad inverse pair as rational functions. Does "
-             "NOT decide non-negativity, sums up to O(1/width), the 1e-6 accuracy or DFT shift identities numerically."),
-    "design_ref": "DESIGN.md §3 C20",
+             "NOT decide non-negativity, sums up to O(1/width), the 1e-6 accuracy or DFT shift identities numerically. Also: the base of t ** (order - 1) in the gamma window is floating point (dtype inference: np.arange follows its arguments, annotated parameters)."),
+    "design_ref": "DESIGN.md §3 C20, §10.10",
     "note": NOTE_COMMON + "vis.py is outside the None-default rule (its guards are correlated across parameters; no property anchors it).",
     "technique": "static analysis: None-default data flow, effect analysis with the copy flag, closed-form and literal-table comparison, purity rule",
 }
@@ -142,8 +142,8 @@ CHECKS["C19"] = {
              "monotone outer maps, positive factors), neighbouring pieces agree exactly at the break-points, the mel and Bark "
              "maps match the published formulas, OctaveScaling validates low_hz. A refutation always carries an exact witness. "
              "This is the right level because the property is a statement about closed forms; what it does not cover is "
-             "floating-point round-off of log/exp."),
-    "design_ref": "DESIGN.md §3 C19",
+             "floating-point round-off of log/exp. Also: OctaveScaling's rejection of low_hz <= 0 is decided by evaluating the path conditions of the constructor's raises (constructor found through the MRO, new base classes and properties read through)."),
+    "design_ref": "DESIGN.md §3 C19, §10.9",
     "note": NOTE_COMMON + "Assumptions: real arithmetic; LinearScaling.slope_hz > 0 (not validated by the constructor, not demanded by the property).",
     "technique": "static analysis: exact symbolic normal forms (Moebius chains, exp/log cancellation, rational break-points) of the extracted closed forms",
 }
@@ -156,10 +156,10 @@ CHECKS["C15"] = {
              "against the input's rank under concatenate=False is reported), Stack's axis normalisation, whole-sequence right "
              "padding, divisibility and drop rule, and - by layout analysis over ranks 2..4 and every (possibly negative) time / "
              "feature axis - that every element of Stack's result comes from the right input element on both its 2-D and N-D paths. "
-             "Does NOT decide Kaldi value equivalence along arbitrary axes."),
-    "design_ref": "DESIGN.md §3 C15",
+             "Does NOT decide Kaldi value equivalence along arbitrary axes. Also: with in_place false the returned value never shares memory with the argument (path-sensitive result-aliasing analysis)."),
+    "design_ref": "DESIGN.md §3 C15, §10.11",
     "note": NOTE_COMMON,
-    "technique": "static analysis: effect analysis with the in_place flag, dtype lattice, exact closed forms of filter recursion / pad-crop / stack arithmetic, axis rules, layout analysis (abstract interpretation of axis bookkeeping with symbolic sizes)",
+    "technique": "static analysis: effect analysis with the in_place flag, dtype lattice, exact closed forms of filter recursion / pad-crop / stack arithmetic, axis rules, layout analysis (abstract interpretation of axis bookkeeping with symbolic sizes); disjunctive (path-sensitive) alias analysis of the returned value",
 }
 CHECKS["C18"] = {
     "level": "other",
@@ -168,10 +168,10 @@ CHECKS["C18"] = {
              "working copy unless in_place on float64, x[...,1:] -= coeff*x[...,:-1] along the chosen axis with sample 0 kept, "
              "numpy.random.normal(0, coeff, shape-only) added once, cast back to the input dtype; no chunked update; torch twins; "
              "in-place writes only with in_place (flag-sensitive effect analysis); global generator, no instance state. "
-             "Does NOT decide distributional facts."),
-    "design_ref": "DESIGN.md §3 C18, §10.6",
+             "Does NOT decide distributional facts. Also: with in_place false the returned value never shares memory with the argument (path-sensitive result-aliasing analysis)."),
+    "design_ref": "DESIGN.md §3 C18, §10.6, §10.11",
     "note": NOTE_COMMON,
-    "technique": "static analysis: forward substitution + scenario evaluation of the returned value against the documented closed form, effect analysis with the in_place flag, provenance of the random draw's arguments, purity",
+    "technique": "static analysis: forward substitution + scenario evaluation of the returned value against the documented closed form, effect analysis with the in_place flag, provenance of the random draw's arguments, purity; disjunctive (path-sensitive) alias analysis of the returned value",
 }
 
 CHECKS["C16"] = {
@@ -181,10 +181,10 @@ CHECKS["C16"] = {
              "both appliers use count, mean = sums/count, var = squares/count - mean^2 and x*scale - mean*scale (closed forms), "
              "scale iff norm_var with zero-variance replacement first; any attribute derived from the statistics is invalidated by "
              "every writer of the statistics; dimension checks precede updates; float64 result; in-place writes only with in_place. "
-             "Does NOT decide numerical values or the moments of locally standardised tensors."),
-    "design_ref": "DESIGN.md §3 C16, §10.7",
+             "Does NOT decide numerical values or the moments of locally standardised tensors. Also: with in_place false the returned value never shares memory with the argument (path-sensitive result-aliasing analysis). The squares are computed, not only reduced, in float64 (dtype inference)."),
+    "design_ref": "DESIGN.md §3 C16, §10.7, §10.11",
     "note": NOTE_COMMON,
-    "technique": "static analysis: forward substitution + scenario evaluation of the statistics matrix after accumulate and of the value / dtype / raise conditions of apply against the documented closed forms, additive-update rule, blocked-loop coverage, dtype lattice, derived-state invalidation (must-write), effect analysis with the in_place flag",
+    "technique": "static analysis: forward substitution + scenario evaluation of the statistics matrix after accumulate and of the value / dtype / raise conditions of apply against the documented closed forms, additive-update rule, blocked-loop coverage, dtype lattice, derived-state invalidation (must-write), effect analysis with the in_place flag; disjunctive (path-sensitive) alias analysis of the returned value",
 }
 CHECKS["C17"] = {
     "level": "other",
@@ -192,8 +192,8 @@ CHECKS["C17"] = {
              "floating-point invariants of the accumulators (integral non-negative count, non-negative squares), ValueError guard "
              "first, suffix dispatch writes the whole matrix with matching readers, overwrite flag controls loading of the existing "
              "archive, default key found by a membership search from arr_0. Does NOT decide equality of the reloaded transform nor "
-             "the float32/float64 re-interpretation heuristic."),
-    "design_ref": "DESIGN.md §3 C17",
+             "the float32/float64 re-interpretation heuristic. Also: validity tests applied by the constructor to loaded statistics may only demand what the accumulators guarantee."),
+    "design_ref": "DESIGN.md §3 C17, §10.10",
     "note": NOTE_COMMON,
     "technique": "static analysis: typestate via reaching definitions, whitelist of accumulator invariants in normal form, structural save/load rules",
 }
@@ -204,8 +204,8 @@ CHECKS["C03"] = {
              "reaching the forward transform is float64/complex128; results carry the first chunk's dtype; non-floating input is "
              "refused first), that forward/inverse transforms are matching pairs under one predicate with explicit lengths, uniform "
              "filter / energy-impulse preparation, window geometry, log floor, and the finalize frame-count closed form. Does NOT "
-             "decide numerical equality with the convolution definition; the total frame count is a function of run-time counters."),
-    "design_ref": "DESIGN.md §3 C03",
+             "decide numerical equality with the convolution definition; the total frame count is a function of run-time counters. Also: the roll shift of the centred filters as a value in every bank-kind alternative; config.LOG_FLOOR_VALUE is read at call time."),
+    "design_ref": "DESIGN.md §3 C03, §10.9, §10.11",
     "note": NOTE_COMMON + "Bank impulse responses are float64/complex128 by their documented contract.",
     "technique": "static analysis: dtype lattice (NEP 50), sibling agreement of transform branches, structural preparation rules, closed-form frame count",
 }
@@ -214,8 +214,8 @@ CHECKS["C11"] = {
     "text": ("Decides agreement of the four force_as tables with the documented names, error types on every path, stream guards "
              "before any reader, the final-cast form of each per-container reader (dtype never handed to a rescaling decoder), keyed "
              "defaults, wave reshape, and that wds_read_signal cannot raise. Does NOT decide bit-identity through third-party "
-             "decoders (soundfile, h5py, torch, scipy)."),
-    "design_ref": "DESIGN.md §3 C11",
+             "decoders (soundfile, h5py, torch, scipy). Also: the soundfile type is the text after the last dot for every name (extension-idiom table with the known deviations of pathlib / os.path.splitext); the package's own SPHERE decoder reads relative to the stream position; with a dtype requested the raw-binary reader interprets the bytes as that dtype."),
+    "design_ref": "DESIGN.md §3 C11, §10.9, §10.10",
     "note": NOTE_COMMON,
     "technique": "static analysis: literal-table agreement, CFG guard dominance, sibling rule on reader return forms and decoder-dtype provenance",
 }
@@ -226,10 +226,10 @@ CHECKS["C05"] = {
              "compared quantities (order-type enumeration, witness on failure) and cannot die with TypeError; vertex/edge spacing, "
              "centres, triangle values and the gammatone/Gabor bandwidth and normalisation constants equal the documented closed "
              "forms (rational / log-linear normal forms); response methods are memo-free. Does NOT decide monotonicity of centres, "
-             "peak gain 1 or crossing points as numerical facts."),
-    "design_ref": "DESIGN.md §3 C05",
+             "peak gain 1 or crossing points as numerical facts. Also: both scale maps read the current public parameters (no value derived at construction), and bank constructors leave the objects passed to them unmodified (effects analysis on every constructor parameter)."),
+    "design_ref": "DESIGN.md §3 C05, §10.10, §10.11",
     "note": NOTE_COMMON + "The GTONE constants are derived from the class docstrings (derivation in DESIGN.md §2).",
-    "technique": "static analysis: order-type enumeration of the validation guard, None-default data flow, closed-form / log-linear normal forms against derived constants, purity rule",
+    "technique": "static analysis: order-type enumeration of the validation guard, None-default data flow, closed-form / log-linear normal forms against derived constants, purity rule; effects analysis of constructor arguments",
 }
 CHECKS["C06"] = {
     "level": "other",
